@@ -25,8 +25,21 @@ variable {α : Type} [Add α] [Sub α] [Mul α] [Div α] [Neg α] [LT α] [LE α
 /-- constructor, bucket of a point: `(position - minpos) / maxpos * ncell_1D` per axis -/
 def bucketIndex (n : Int) (p a s : α) : Int := Trunc.toInt ((p - a) / s * OfInt.ofInt n)
 
+/-- constructor lines 116-135: the three bucket indices of a position -/
+def pointBucket (n : Int) (a s : V3 α) (p : V3 α) : Int × Int × Int :=
+  (bucketIndex n p.x a.x s.x, bucketIndex n p.y a.y s.y, bucketIndex n p.z a.z s.z)
+
+/-- `_grid[ix][iy][iz].push_back(i)` for `i = 0 … npts-1`: a bucket holds, in ascending order,
+the indices whose bucket indices are its own (`ids i` = bucket indices of position `i`) -/
+def bucketsFrom (ids : Nat → Int × Int × Int) (npts : Nat) (ix iy iz : Int) : List Nat :=
+  (List.range npts).filter (fun i => decide ((ids i).1 = ix ∧ (ids i).2.1 = iy ∧ (ids i).2.2 = iz))
+
 /-- `_grid_cell_sides = maxpos / ncell_1D` -/
 def cellSides (s : V3 α) (n : Int) : V3 α := ⟨s.x / OfInt.ofInt n, s.y / OfInt.ofInt n, s.z / OfInt.ofInt n⟩
+
+/-- the constructor with an explicit box (`minpos = box.get_anchor()`, `maxpos = box.get_sides()`) -/
+def build (n : Int) (a s : V3 α) (pos : Nat → V3 α) (npts : Nat) : BGrid α :=
+  ⟨a, cellSides s n, n, bucketsFrom (fun i => pointBucket n a s (pos i)) npts, pos⟩
 
 /-- `generalngbiterator`: anchor cell of the query, `(position - _grid_anchor) / _grid_cell_sides` -/
 def anchorIndex (p a cs : α) : Int := Trunc.toInt ((p - a) / cs)
